@@ -1,3 +1,4 @@
+import PT.Lemmas.Refine
 import PT.Lemmas.Reach
 /-!
 # C10 — Sub-tree selection and bulk removal act on exactly the covered entries
@@ -56,5 +57,17 @@ theorem removeChildren_zero {m : PMap w V} (q : Pfx w) (hq : q.len = 0) : (m.rem
 
 theorem removeChildren_preserves_inv {m : PMap w V} (h : m.Inv) (q : Pfx w) : (m.removeChildren q).Inv :=
   removeChildren_inv h q
+
+
+/-- the three operations as functions of the abstract map (`Spec.retain`, `Spec.children`,
+`Spec.removeChildren` are list filters) -/
+theorem retain_eq_spec {m : PMap w V} (h : m.Inv) (f : Pfx w → V → Bool) :
+    (m.retain f).entries = Spec.retain m.entries f := PMap.retain_refines h f
+
+theorem children_eq_spec {m : PMap w V} (h : m.TreeWF) (q : Pfx w) :
+    m.childrenIter q = Spec.children m.entries q := PMap.children_refines h q
+
+theorem removeChildren_eq_spec {m : PMap w V} (h : m.Inv) (q : Pfx w) :
+    (m.removeChildren q).entries = Spec.removeChildren m.entries q := PMap.removeChildren_refines h q
 
 end PT.C10
